@@ -23,7 +23,8 @@
 (*       bb (bound of b), lib (library's sa.Contains(bb))                  *)
 (*  hull signs (RobustSign of consecutive vertex triples), n,              *)
 (*       ins = <<own, isVertex>>* per input point                          *)
-(*  pl   polyline interior witness: latm, latp (lat -/+ slack), rect       *)
+(*  pl   polyline interior witness: latm, latp (lat -/+ slack), rect,      *)
+(*       distm (chord^2 from the cap axis, less a slack), capr             *)
 (***************************************************************************)
 EXTENDS Bounds, Json
 
@@ -98,7 +99,8 @@ HullRej(e) ==
     \cup (IF \E k \in 1..Len(e.ins) : ~e.ins[k][1] /\ ~e.ins[k][2] THEN {"hull-contains-input"} ELSE {})
 
 PlRej(e) ==
-    IF FLeq(e.latm, e.rect[2]) /\ FLeq(e.rect[1], e.latp) THEN {} ELSE {"polyline-lat-bound"}
+    (IF FLeq(e.latm, e.rect[2]) /\ FLeq(e.rect[1], e.latp) THEN {} ELSE {"polyline-lat-bound"})
+    \cup (IF CapHas(e.capr, e.distm) THEN {} ELSE {"polyline-edge-cap-bound"})
 
 Rej(n) ==
     LET e == Trace[n]
